@@ -2,23 +2,23 @@ SPECIFICATION MCSpec
 CONSTANTS
  N = 3
  T = 2
- NV = 1
- Cmds = {1, 2, 3}
+ NV = 2
+ Cmds = {1, 2, 3, 4}
  RepostAppends = TRUE
  Defect = "none"
  Honest = {1, 2}
- Args <- ArgsCore
- ByzReqs <- Byz3
- MaxByz = 1
- Faults <- FApi
+ Args <- ArgsAll
+ ByzReqs <- ByzNone
+ MaxByz = 0
+ Faults <- FCodes
  MaxFault = 1
- Tampers <- TAll
+ Tampers <- TPos
  MaxTamper = 1
  Plants <- PNone
  MaxPlant = 0
  Statuses <- SNone
  MaxChain = 0
- InitSt <- IActive
+ InitSt <- IMixed
  Policy = "free"
 INVARIANTS Safety Robust
 PROPERTIES MCDeleteOnlyOwn MCRefusedNoEffect
